@@ -314,6 +314,40 @@ func catalogue() []entry {
 			}
 			return c.tr.Extend(c.parent, ce.BlockOpt{Txs: someTxs(c, 2)})
 		}},
+		{"merkle-many", func(c *ctx) *ce.Node {
+			// blocks whose transaction count sits next to a power of two or a multiple of 512:
+			// a fan-out transaction, then one spend per output
+			sp := spendableAt(c.tr, c.parent)
+			if len(sp) == 0 {
+				return nil
+			}
+			k := rapid.SampledFrom([]int{254, 255, 256, 510, 511, 512, 1022, 1023, 1024, 1534, 1535, 1536, 2046, 2047, 2048, 2558, 2559, 3070, 3071}).Draw(c.t, "spends")
+			op := sp[rapid.IntRange(0, len(sp)-1).Draw(c.t, "fanCoin")]
+			coin := c.parent.Utxo[op]
+			if coin.Value < int64(k) {
+				return nil
+			}
+			v := coin.Value / int64(k)
+			outs := make([]*wire.TxOut, k)
+			for i := range outs {
+				outs[i] = &wire.TxOut{Value: v, PkScript: ce.OpTrue}
+			}
+			fan := ce.SpendTx(1, []wire.OutPoint{op}, outs, 0, 0xffffffff)
+			setup := c.tr.Extend(c.parent, ce.BlockOpt{Txs: []*wire.MsgTx{fan}})
+			if !setup.ChainValid {
+				return nil
+			}
+			fh := fan.TxHash()
+			txs := make([]*wire.MsgTx, k)
+			for i := range txs {
+				txs[i] = ce.SpendTx(1, []wire.OutPoint{{Hash: fh, Index: uint32(i)}}, []*wire.TxOut{{Value: v, PkScript: ce.OpTrue}}, 0, 0xffffffff)
+			}
+			o := ce.BlockOpt{Txs: txs}
+			if c.invalid {
+				o.Break = "bad-merkle"
+			}
+			return c.tr.Extend(setup, o)
+		}},
 		{"merkle-dup-mutation", func(c *ctx) *ce.Node {
 			// CVE-2012-2459: [cb,a,b] and [cb,a,b,b] share the merkle root and block hash
 			txs := someTxs(c, 2)
@@ -413,7 +447,8 @@ func catalogue() []entry {
 			}
 			op := wire.OutPoint{Hash: src.Msg.Transactions[0].TxHash(), Index: 0}
 			coin, ok := c.parent.Utxo[op]
-			if !ok || len(coin.PkScript) != 1 {
+			if !ok || len(coin.PkScript) != 1 || coin.Height != src.Height {
+				// (without BIP34 an identical coinbase may have re-created the txid later: another age)
 				return nil
 			}
 			return c.tr.Extend(c.parent, ce.BlockOpt{Txs: []*wire.MsgTx{spendOne(c.parent.Utxo, op, 0)}})
